@@ -15,6 +15,20 @@ CHECKS = {
              "drop-padding / reject evaluated on the observation). Exhaustive small-scope + seeded random beyond.",
         technique="TLA+ state machine + TLC exhaustive model checking; TLC trace validation of recorded tokenizer calls",
         ref="5/C11"),
+    "C14": dict(
+        text="TLC explores every binary-tree shape up to the bound (Heap.tla/MC_Heap) and checks the specification's pre/in/post orders "
+             "(permutation, true depth, defining in-order property); every shape is then built from the real node classes, all three visits "
+             "are run without stop and with the stop signal at every callback position, all look-ups are called on every node, and TLC "
+             "trace-validates each recorded run against the orders and look-ups computed from the projected link structure.",
+        technique="TLA+ heap model + TLC exhaustive shapes; TLC trace validation of recorded callback sequences and look-ups",
+        ref="5/C14"),
+    "C15": dict(
+        text="TLC checks on all shapes and nodes up to the bound that the reference rotation action satisfies the C15 contract (in-order kept, "
+             "links consistent, grandparent re-pointed, root no-op) and is undone by rotating the old parent; the real rotate() is run on every "
+             "node of every shape and each before/after pair of pointer-level heaps (same object universe) is validated by TLC against the contract "
+             "and the reference action.",
+        technique="TLA+ rotation action + contract; TLC exhaustive shapes x nodes; TLC trace validation of before/after heaps",
+        ref="5/C15"),
 }
 
 ALL = ["C%02d" % i for i in range(1, 19)]
